@@ -6,7 +6,8 @@
 //! case   : `eng=<file|rocks> cp=<j>|op;op;…`   ops: a:<cmd>  ckpt  flush  reopen  tick
 //!          crash points, in order of occurrence: the File engine's own points (guarded callback
 //!          `verif_set_file_crash_point_callback`: apply:wal-appended, persist_data:truncated/written,
-//!          persist_metadata:truncated/written, clear_wal:done) and `op-done` after every op; the j-th is
+//!          persist_metadata:truncated/written, clear_wal:done, persist_data_sync:written,
+//!          persist_metadata_sync:written in flush()/Drop) and `op-done` after every op; the j-th is
 //!          imaged (the last one if j is beyond).
 //! output : `cp=<name> n=<entries started> la=<recovered applied index> rec=<kv> fin=<kv after re-apply>`
 use bytes::Bytes;
@@ -191,8 +192,8 @@ fn gen_case(r: &mut Rng, eng: &str) -> String {
         let o = match r.below(20) {
             0..=12 => { points += 2; gen_cmd(r, nk, &mut cur) }
             13 | 14 => { points += 6; "ckpt".to_string() }
-            15 => { points += 1; "flush".to_string() }
-            16 => { points += 2; "reopen".to_string() }
+            15 => { points += 3; "flush".to_string() }
+            16 => { points += 5; "reopen".to_string() }
             _ => { points += 1; "tick".to_string() }
         };
         ops.push(o);
@@ -214,11 +215,32 @@ fn gen_chain(r: &mut Rng, eng: &str) -> String {
     format!("eng={} cp={}|{}", eng, cp, ops.join(";"))
 }
 
+/// Crash inside the graceful shutdown (Drop = metadata, data, metadata) or inside flush(), with entries
+/// applied since the last checkpoint (WAL non-empty): the crash point is aimed at the first file
+/// operations of the last op.
+fn gen_shutdown_crash(r: &mut Rng) -> String {
+    let k = 1 + r.below(2);
+    let mut ops = vec![format!("a:put,{},1,-", k)];
+    let mut points = 2u64; // crash points so far (File engine): apply = wal-appended + op-done
+    if r.chance(2, 3) { ops.push("ckpt".into()); points += 6; }
+    for j in 0..1 + r.below(3) {
+        ops.push(match r.below(3) { 0 => format!("a:put,{},{},-", k, 2 + j), 1 => format!("a:cas,{},{},{}", k, 1 + j, 2 + j), _ => format!("a:put,{},5,-", 3 - k) });
+        points += 2;
+    }
+    ops.push(r.pick(&["reopen", "reopen", "flush"]).to_string());
+    let cp = points + r.below(3);
+    format!("eng=file cp={}|{}", cp, ops.join(";"))
+}
+
 fn generate(r: &mut Rng, n: usize, tier: &str) -> Vec<String> {
     let mut out = vec![];
     for i in 0..n {
         let eng = if i % 6 == 5 { "rocks" } else { "file" };
-        if i % 4 == 1 { out.push(gen_chain(r, eng)); } else { out.push(gen_case(r, eng)); }
+        match i % 4 {
+            1 => out.push(gen_chain(r, eng)),
+            3 if eng == "file" => out.push(gen_shutdown_crash(r)),
+            _ => out.push(gen_case(r, eng)),
+        }
     }
     out.push("eng=file cp=0|".into());
     out.push("eng=file cp=0|ckpt".into());
@@ -226,7 +248,7 @@ fn generate(r: &mut Rng, n: usize, tier: &str) -> Vec<String> {
     if tier == "thorough" {
         // every crash point of a fixed scenario that contains every kind of file operation
         let sc = "a:put,1,1,-;a:put,2,5,-;ckpt;a:cas,1,2,3;a:cas,1,1,2;tick;a:del,2;a:cas,1,2,3;flush;a:put,2,6,-;reopen;a:cas,2,6,7";
-        for cp in 0..40 { out.push(format!("eng=file cp={}|{}", cp, sc)); }
+        for cp in 0..48 { out.push(format!("eng=file cp={}|{}", cp, sc)); }
         for cp in 0..14 { out.push(format!("eng=rocks cp={}|{}", cp, sc)); }
     }
     out
